@@ -120,6 +120,7 @@ var (
 		Secs:    map[int]int{SecY: 3, SecLocal: 5, SecReader: 2, SecCall: 1, SecIfKind: 1, SecIfIdx: 1, SecForKind: 1, SecAsgKind: 1, SecShW: 2, SecShR: 2, SecRangeKey: 3, SecLocObj: 3, SecLocObjReader: 1, SecLocAlias: 3, SecOptName: 3, SecLocStruct: 2, SecConc: 2, SecForAcc: 3},
 		MaxSecs: 3, Rets: []int{RetNone, RetNestedV},
 		FaultPct: 40, GatePct: 30, RetPct: 50, MinCalls: 4, MaxCalls: 14, UnknownNamePct: 10, BadNMPct: 5,
+		CarryPct: 25, CarrySecs: map[int]int{SecY: 1, SecLocal: 5, SecRangeKey: 1, SecReader: 5, SecLocObj: 1, SecLocObjReader: 1, SecCall: 3, SecIfKind: 1, SecStop: 4, SecOptName: 1},
 	}
 	ProfC18 = &Profile{
 		Methods:  []int{MExecute, MExecute, MConcurrent, MMix, MDAG},
@@ -208,6 +209,10 @@ var c19Scenarios = []func(plan, sched *simrt.Source, trace bool) *RunOut{
 	w1(ProfC15),
 	RunBuilderConc,
 	func(plan, sched *simrt.Source, trace bool) *RunOut { return RunW2Scripted(ProfC16, plan, sched, trace) },
+	// the life of a pool that is cleared and then refilled piecemeal, never rebuilt in full: whatever the
+	// management calls adopt as their master copy after a clear stays in use for every later call
+	w2(&W2Opt{Prof: ProfC07, Methods: cat(allEngineMethods, []int{MPoolEMMulti, MPoolSelEM}), MaxClients: 4, MaxReqs: 4, Admins: 1, MaxMgmt: 5,
+		MgmtKinds: []int{OpClear, OpIncr, OpIncr, OpRemove}, InvalidPct: 5, UpdFromRule: true}),
 }
 
 func runC19(plan, sched *simrt.Source, trace bool) *RunOut {
